@@ -306,6 +306,10 @@ type Interp struct {
 	// CallHook intercepts a call before it is resolved (stream methods standing for the wire):
 	// handled=true means the returned value (possibly nil after Fail) is the call's value.
 	CallHook func(f *Frame, call *ast.CallExpr) (val *Value, handled bool)
+	// TableAlias: a package-level table that is a width variant of another one (its entries are the
+	// low 32 bits of the base table's, zero- or sign-extended): base name, base element width, and
+	// whether the upper bits repeat bit 31. Look-ups in it are look-ups in the base table.
+	TableAlias func(obj types.Object) (base string, baseWidth int, signExt bool, ok bool)
 }
 
 type frame struct {
@@ -797,6 +801,22 @@ func (ip *Interp) expr(fr *frame, e ast.Expr, want types.Type) *Value {
 				}
 				if ip.Tables == nil {
 					ip.Tables = map[string]bool{}
+				}
+				if ip.TableAlias != nil {
+					if base, bw, sext, ok := ip.TableAlias(obj); ok {
+						ip.Tables[base] = true
+						t := Input(fmt.Sprintf("%s{%s}", base, idx.V.String()), bw)
+						out := make(Vec, w)
+						for k := 0; k < w; k++ {
+							switch {
+							case k < 32 && k < bw:
+								out[k] = t[k]
+							case sext && bw > 31:
+								out[k] = t[31]
+							}
+						}
+						return &Value{V: out, Sign: sg}
+					}
 				}
 				ip.Tables[obj.Name()] = true
 				key := fmt.Sprintf("%s{%s}", obj.Name(), idx.V.String())
